@@ -232,6 +232,9 @@ func EnvStubs(st map[string]StubFn) {
 	st[vrtPkg+"Implies"] = func(r *Run, fr *frame, fn *ssa.Function, a []value) value {
 		return simplifyBool(Implies(asTerm(a[0]), asTerm(a[1])))
 	}
+	st[vrtPkg+"SkeletonPath"] = func(r *Run, fr *frame, fn *ssa.Function, a []value) value {
+		return r.E.SkeletonRoot + "/" + a[0].(string) + "/setup.go"
+	}
 	st[vrtPkg+"Choose"] = func(r *Run, fr *frame, fn *ssa.Function, a []value) value {
 		// an input-level choice: recorded as a named Int so that models/replays see it
 		k := int(asInt64(a[1]))
